@@ -950,9 +950,6 @@ theorem dupList_subs (st : List (Name × Int)) :
       simp only [dupList, List.flatMap_cons] at ih ⊢
       exact ⟨ih.1, by rw [ih.2]⟩
 
-/-- the `isotopomers` dict of the linear mapper -/
-def isosOf (lv : List (Name × Nat)) : List (Name × List Slot) :=
-  lv.map fun kn => (kn.1, (List.range kn.2).map (Slot.pos kn.1))
 
 theorem isos_mapM (lv : List (Name × Nat)) (h : ∀ kn ∈ lv, kn.2 > 0) :
     (lv.mapM fun kn => do pure (kn.1, ← isotopeLabels kn.1 kn.2)) = .ok (isosOf lv) := by
@@ -983,10 +980,6 @@ theorem slotsOf_isosOf (lv : List (Name × Nat)) (cs : List Name)
     rw [ih (fun c' hc' => h c' (List.mem_cons_of_mem _ hc'))]
     simp [bind, Except.bind, pure, Except.pure, slotsFlat_cons, labelsOf, hn]
 
-/-- the padded product positions -/
-def paddedProds (lv : List (Name × Nat)) (r : BRxn) : List Slot :=
-  slotsFlat lv (prodsOf r)
-    ++ List.replicate ((slotsFlat lv (subsOf r)).length - (slotsFlat lv (prodsOf r)).length) Slot.ext
 
 theorem paddedProds_length (lv : List (Name × Nat)) (r : BRxn) :
     (paddedProds lv r).length = max (nSub lv r) (nProd lv r) := by
